@@ -36,7 +36,8 @@
 (*   SuperCheckFirst MOFWBEMConnection.CreateClass looks the superclass up *)
 (*                   BEFORE it stores the new class (FALSE: stores first,  *)
 (*                   so `class X : X` finds itself, is accepted and is its *)
-(*                   own ancestor from then on)                            *)
+(*                   own ancestor from then on; the same for a class that  *)
+(*                   is re-declared as a subclass of its own subclass)     *)
 (*   GuardCanonical  the include guard of compile_file compares canonical  *)
 (*                   (absolute, normalised) paths (FALSE: the path as it   *)
 (*                   was spelled; a cycle through a path with a redundant  *)
@@ -58,13 +59,24 @@
 (*                   qualifier without a value (FALSE: None.lower())       *)
 (*   OverflowWrapped OverflowError of the value conversions (int -> float) *)
 (*                   is translated like ValueError/TypeError               *)
+(*   InstOffsetAll   p_instanceDeclaration finds class name, alias and     *)
+(*                   property list at positions shifted by one when a      *)
+(*                   qualifier list precedes INSTANCE - in EVERY branch    *)
+(*                   (FALSE: not for the property list of the alias branch:*)
+(*                   with qualifier list AND alias the "property list" is  *)
+(*                   the '{' token; iterating it ends in IndexError)       *)
+(*   OpenPrecheck    _compile_file asks os.path.exists() (total: False for *)
+(*                   names the OS interface refuses) before it opens the   *)
+(*                   file (FALSE: open() first and only FileNotFoundError  *)
+(*                   handled: a name with NUL / a lone surrogate raises    *)
+(*                   ValueError / UnicodeEncodeError)                      *)
 (***************************************************************************)
 EXTENDS MofCompile
 
 CONSTANTS IncludeGuard, NsNoneCheck, HexBounds, CtxBounds, ValueWrapped,
           RepoWrapped, EmbFinally, RestoreOnReturn, EmbRestoreAll,
           SuperCheckFirst, GuardCanonical, RegisterAfterCreate, NsCachesInit,
-          EmbNullChecked, OverflowWrapped
+          EmbNullChecked, OverflowWrapped, InstOffsetAll, OpenPrecheck
 
 AnyMof == {"ok"} \cup MOFErrors
 
@@ -171,6 +183,8 @@ ImplProd(p, env) ==
   ELSE
   CASE p.d = "none" ->
          IF p.v = "hexesc_end" THEN {IF HexBounds THEN "ok" ELSE "IndexError"}
+         ELSE IF InstHasQuals(p) /\ InstHasAlias(p) /\ ~InstOffsetAll
+         THEN {"IndexError"}
          ELSE IF p = OfPrev /\ env.cyc THEN {"RecursionError"}
          ELSE IF ConsultsClassnames(p) /\ env.reg /\ p.a = 1
          THEN {"MOFDependencyError"}   \* lookup skipped: "already known"
@@ -193,6 +207,9 @@ ImplProd(p, env) ==
          ELSE IF p.k = "include"
          THEN IF p.v = "hexesc_name"
               THEN {IF HexBounds THEN "OSError" ELSE "IndexError"}
+              ELSE IF p.v \in OsRefusedNames /\ ~OpenPrecheck
+              THEN {IF p.v = "surrogate_name" THEN "UnicodeEncodeError"
+                    ELSE "ValueError"}
               ELSE {"OSError"}
          ELSE IF p.v = "real_huge_int" /\ ~OverflowWrapped
          THEN {"OverflowError"}
@@ -208,6 +225,9 @@ ImplProd(p, env) ==
          THEN {"ok"}
          ELSE IF p.v = "super_self"
          THEN {IF SuperCheckFirst THEN "MOFDependencyError" ELSE "ok"}
+         ELSE IF p.v = "super_redefine_cycle"
+         THEN IF SuperCheckFirst
+              THEN {"MOFDependencyError", "MOFRepositoryError"} ELSE {"ok"}
          ELSE IF p.v \in {"super_cycle_searchpath", "class_cycle_searchpath"}
          THEN IF IncludeGuard THEN {"MOFParseError", "MOFDependencyError"}
               ELSE {"RecursionError"}
@@ -230,7 +250,9 @@ EmbList(p) == p \in NestedOk /\ p.v \in {"emb_array_ok", "emb_array_one"}
 (* the repository's view of "the class declared last in this text" after  *)
 (* class production p was accepted                                         *)
 CycAfter(p, cyc) == IF p.k # "class" THEN cyc
-                    ELSE IF p.d = "dependency" /\ p.v = "super_self" THEN TRUE
+                    ELSE IF p.d = "dependency"
+                            /\ p.v \in {"super_self", "super_redefine_cycle"}
+                    THEN TRUE
                     ELSE IF p = SubOfPrev THEN cyc
                     ELSE FALSE
 
